@@ -7,8 +7,12 @@ ok = True
 for pid, P in sorted(props.PROPS.items()):
     for R in P["runs"]:
         try:
+            if R.get("gen") == "nullmatrix":
+                import gen_nullmatrix
+                out = gen_nullmatrix.generate(vlib.REPO, vlib.VERIF, os.path.join(vlib.BUILD, "gen"))[0]
+                R = dict(R, cflags=list(R.get("cflags", ())) + ['-DNULL_GEN_FILE="%s"' % out], dep_files=[out])
             vlib.build_harness(R["name"], R.get("profile", "asan"), R["sources"], exclude=R.get("exclude", ()),
-                               wraps=R.get("wraps", ()), cflags=R.get("cflags", ()), includes_repo_src=R.get("exclude", ()))
+                               wraps=R.get("wraps", ()), cflags=R.get("cflags", ()), includes_repo_src=R.get("exclude", ()), dep_files=R.get("dep_files", ()))
             print("built", pid, R["name"])
         except Exception as e:
             ok = False
